@@ -552,7 +552,7 @@ class GlobalSearchCommand(BaseCommand[None, None]):
         self._ticket: Optional[int] = None
 
     async def send(self, client: SoulSeekClient):
-        self._ticket = next(client.ticket_generator)
+        self._ticket = next(client.searches._ticket_generator)
         await client.network.send_server_messages(
             FileSearch.Request(
                 self._ticket,
@@ -574,7 +574,7 @@ class UserSearchCommand(BaseCommand[None, None]):
         self._ticket: Optional[int] = None
 
     async def send(self, client: SoulSeekClient):
-        self._ticket = next(client.ticket_generator)
+        self._ticket = next(client.searches._ticket_generator)
         await client.network.send_server_messages(
             UserSearch.Request(
                 self.username,
@@ -598,7 +598,7 @@ class RoomSearchCommand(BaseCommand[None, None]):
         self._ticket: Optional[int] = None
 
     async def send(self, client: SoulSeekClient):
-        self._ticket = next(client.ticket_generator)
+        self._ticket = next(client.searches._ticket_generator)
         await client.network.send_server_messages(
             RoomSearch.Request(
                 self.room,
